@@ -389,7 +389,9 @@ func (g *gen) object(depth int, feature bool) string {
 			rad := rapid.SampledFrom([]string{"100", "1", "0", "2500.5", "1e6", "0.001"}).Draw(t, "radius")
 			extra = append(extra, `"properties"`+g.ws()+`:{"type":"Circle","radius":`+rad+units+`}`)
 		} else if g.mutate("nullgeom") {
-			reqVal = rapid.SampledFrom([]string{"null", "[]", `"Point"`, "5"}).Draw(t, "badgeom")
+			reqVal = rapid.SampledFrom([]string{"null", "[]", `"Point"`, "5",
+				// a JSON string whose content is a whole valid geometry (double-encoded): still a string, not an object
+				`"{\"type\":\"Point\",\"coordinates\":[1,2]}"`, `"{\"type\":\"LineString\",\"coordinates\":[[0,0],[1,1]]}"`}).Draw(t, "badgeom")
 		} else {
 			reqVal = g.object(depth-1, false)
 			if !g.o.NoCircle && rapid.IntRange(0, 9).Draw(t, "circleprops") == 0 {
